@@ -196,10 +196,50 @@ def configs(ctx):
     return [('life-futures', fut, 6), ('life-futures', dict(fut, prices=[0.9, 1.1, 'M']), 5), ('life-futures', fut2, 6), ('life-spot', spot, 5)]
 
 
+def _session(args):
+    """life-cycle clauses on every order of a real backtest session (two routes sharing one exchange, both simulators)"""
+    from . import c02
+    from .. import session as S, fills, progs
+    from ..core import Violation
+    word, pname, prog, kind, fast, emb, p2name, chunk = args
+    prog2 = dict(progs.programs(emb[1], emb[2], kind))[p2name] if p2name else None
+    case = c02.build_case(word, prog, kind, fast, emb, prog2=prog2, chunk=chunk)
+    r = S.run_session(case)
+    ident = {'session': True, 'word': list(word), 'program': pname, 'kind': kind, 'fast': fast, 'embedding': list(emb), 'program2': p2name, 'chunk': chunk}
+    if r['error']:
+        return {'viols': [Violation('unexpected-exception', {'exc': r['error'][0]}, ident, '%s: %s' % r['error'][:2]).to_json()], 'stats': {}}
+    probs, stats = fills.c05(r['trace'], r['end'])
+    stats['orders'] = len(r['end']['final_statuses']) if r['end'] else 0
+    return {'viols': [Violation(c, dict(sig, via='session'), ident, m).to_json() for c, sig, m in probs], 'stats': stats}
+
+
+def session_cases(ctx):
+    from . import c02
+    for c in c02.cases(ctx):
+        if len(c) > 6 and c[6]:          # the two-symbol sessions of the C02 space
+            yield c
+        elif len(c) == 6 and c[1] in ('long-market-scaleout-at-market', 'short-limit-2leg') and ctx.quick is False:
+            yield tuple(c) + (None, 3)
+
+
 def run(ctx):
+    from .. import core
+    from ..core import Violation
     cfgs = configs(ctx)
     for name, cfg, depth in cfgs:
         bfs.search(ctx, name, cfg, depth)
+    sc = list(session_cases(ctx))
+    sigs = set()
+    for r in core.pmap(_session, sc, chunksize=32):
+        for k, v in r['stats'].items():
+            ctx.count('session:' + k, v)
+        for v in r['viols']:
+            v = Violation.from_json(v)
+            if v.sigkey() not in sigs:
+                sigs.add(v.sigkey())
+                ctx.add(v)
+    ctx.coverage['traces_validated_against_impl'] += len(sc)
+    ctx.coverage['bounds']['sessions'] = len(sc)
     cov = ctx.coverage
     cov['evaluations'] = cov['transitions']
     cov['distinct_nontrivial'] = cov['states']
@@ -212,6 +252,13 @@ def run(ctx):
 
 
 def replay(case, ctx):
+    if case.get('session'):
+        from .. import progs
+        from ..core import Violation
+        emb = tuple(case.get('embedding') or ctx.embedding)
+        P = dict(progs.programs(emb[1], emb[2], case['kind']))
+        r = _session((tuple(case['word']), case['program'], P[case['program']], case['kind'], case['fast'], emb, case.get('program2'), case.get('chunk', 3)))
+        return [Violation.from_json(v) for v in r['viols']]
     cfg = case['cfg']
     name = 'life-spot' if 'nsym' not in cfg else 'life-futures'
     return bfs.replay(name, cfg, [tuple(o) for o in case['history']])
